@@ -92,6 +92,12 @@ def cases(rng, tier, shard, nshards):
             pts, meta = gen.curve(rng, nmax=80, nmin=3)
         det = pick(rng, DETECTORS)
         t1 = float(10.0 ** rng.uniform(-4, -1))
+        u = rng.random()
+        if u < 0.06:
+            t1 = 0.0                      # the quantifier allows t1 >= 0: every segment longer than t2 is refined
+        if u < 0.12 and len(pts) <= 80:   # exactly collinear (sub)curves: Menger legitimately answers index 0 there
+            det = 'menger' if rng.random() < 0.6 else det
+            pts, meta = gen.curve(rng, nmax=60, nmin=5, family='collinear0')
         lay = gen.pick_layout(rng, pts)
         if rng.random() < 0.15 and len(pts) > 5:
             # exact tie: t1 equal to the realised SMAPE of the curve or of a prefix (>= vs > is observable)
@@ -116,6 +122,8 @@ def run_case(ctx, mods, case):
     c = LAST.get('count', 0)
     ctx.h('knees', c if c < 5 else ('5-19' if c < 20 else '20+'))
     ctx.h('recursion_depth', LAST.get('depth', 0) if LAST.get('depth', 0) < 8 else '8+')
+    if len(np.asarray(res)) and int(np.asarray(res)[0]) == 0:
+        ctx.h('first_knee_is_index_0', det)
     if c >= 2:
         ctx.nontriv(case['points'], det, case['t1'], case['t2'])
         ctx.sample({'family': case['family'], 'n': len(pts), 'detector': det, 't1': case['t1'], 't2': case['t2'],
